@@ -758,6 +758,20 @@ def run(tier, seed):
                         R.fail("NoteContainer.from_interval_shorthand", "holds-exactly-the-pitches-a-set-model-predicts",
                                "%s-%d %s up -> %r, expected pitches %r" % (r, o, sh, observed(nc), [pitch(r, o), pitch(r, o) + semis]),
                                (r, o, sh, start))
+                    if start == "note":
+                        # the start note is the caller's object (it may sit in another container): it is not edited,
+                        # and a second interval stacked on the same object starts on the same note
+                        if (arg.name, arg.octave) != (r, o):
+                            R.fail("NoteContainer.from_interval_shorthand", "holds-exactly-the-pitches-a-set-model-predicts",
+                                   "the start note object %s-%d is %s-%d after the call" % (r, o, arg.name, arg.octave),
+                                   (r, o, sh, "argument"))
+                        ok2, nc2 = R.guard("NoteContainer.from_interval_shorthand",
+                                           "holds-exactly-the-pitches-a-set-model-predicts", (r, o, sh, "again"),
+                                           lambda: NoteContainer().from_interval_shorthand(arg, sh))
+                        if ok2 and [pitch(n, oo) for n, oo in observed(nc2)] != [pitch(r, o), pitch(r, o) + semis]:
+                            R.fail("NoteContainer.from_interval_shorthand", "holds-exactly-the-pitches-a-set-model-predicts",
+                                   "second interval on the same start note object: %r, expected pitches %r"
+                                   % (observed(nc2), [pitch(r, o), pitch(r, o) + semis]), (r, o, sh, "again"))
 
     # 4c. progressions: numeral x accidental prefix x suffix x 30 keys
     suffixes = ["", "7", "m", "M7", "dim7", "dom7", "m7b5", "sus4", "13"] if quick \
